@@ -188,18 +188,18 @@ func (u c28Use) build() c28Part {
 
 // c28Cand is one valid combination.
 type c28Cand struct {
-	Kind    string
-	Uses    []c28Use
-	Segs    []c28Seg
-	Ifaces  []c28Iface
-	Expiry  time.Time
-	ExpSeg  int // index of the path segment holding the earliest hop expiry (first one on ties)
-	ExpTie  bool
-	ExpPeer bool // the earliest expiry is (also) that of a peer hop field
+	Kind        string
+	Uses        []c28Use
+	Segs        []c28Seg
+	Ifaces      []c28Iface
+	Expiry      time.Time
+	ExpSeg      int // index of the path segment holding the earliest hop expiry (first one on ties)
+	ExpTie      bool
+	ExpPeer     bool // the earliest expiry is (also) that of a peer hop field
 	PeerDiffers bool // some peer hop on the path differs in ExpTime / egress from its AS entry's hop entry
-	MTU     int
-	MTUKind string // kind of the element realising the minimum: as / link / peerlink (joined with + on ties)
-	Err     string
+	MTU         int
+	MTUKind     string // kind of the element realising the minimum: as / link / peerlink (joined with + on ties)
+	Err         string
 }
 
 func c28Combine(kind string, uses ...c28Use) c28Cand {
